@@ -13,7 +13,7 @@
 From BX Require Import Base.Prelude Model.Fees Model.ExecFrame.
 Local Open Scope N_scope.
 
-Record rule := { r_addr : N; r_available : bool }.
+Record rule := { r_addr : N; r_available : bool; r_master : bool }.   (* status = available; Master flag *)
 Record appchain := {
   a_trust : N;                        (* trust root handed to the rule engine *)
   a_validators : option (list N)      (* decoded {"addresses": [...]}; None = absent / undecodable *)
@@ -201,6 +201,20 @@ Definition c_recover (s d : N) : option N :=
 
 Definition c_verify := verify_proof c_H c_digest c_rule c_recover.
 
+(** "the CURRENT MASTER rule accepts": the rule carrying the Master flag in the chain's rule list
+    (not the selection function of the proof pool) answers true on these bytes.  Used as the
+    property predicate on implementation traces: an accepted locally-originated IBTP must satisfy it. *)
+Definition master_accepts (st : pstate) (ib : ibtp) (pd : proofdata) : bool :=
+  let '(b, c) := origin ib in
+  match pd, ps_chains st c, find r_master (ps_rules st c) with
+  | PdBytes p _, Some app, Some r =>
+      (c_H p =? ib_proofhash ib) &&
+      match c_rule (r_addr r) c p (ib_id ib) (a_trust app) with Some true => true | _ => false end
+  | _, _, _ => false
+  end.
+
+Definition is_local (bxh : N) (ib : ibtp) : bool := fst (origin ib) =? bxh.
+
 (** judge: one block; per transaction optionally the proof description of the IBTP it carries *)
 Record pdesc := {
   pd_chains : list (N * appchain);
@@ -250,8 +264,19 @@ Definition p_verified_b (k : pcase) : bool :=
   forallb (fun p : option vres * bool => match fst p with Some v => negb (snd p) || vres_ok v | None => true end)
           (combine (map (verdict_of (pc_bxh k)) (pc_descs k)) (xc_recs (pc_frame k))).
 
+(** ... and, for a locally originated IBTP, that the current MASTER rule accepts *)
+Definition p_master_b (k : pcase) : bool :=
+  forallb (fun p : option pdesc * bool =>
+             match fst p with
+             | Some d => negb (snd p) || negb (is_local (pc_bxh k) (pd_ibtp d)) ||
+                         master_accepts (pstate_of (pc_bxh k) d) (pd_ibtp d) (pd_proof d)
+             | None => true
+             end)
+          (combine (pc_descs k) (xc_recs (pc_frame k))).
+
 Definition judge_proof (k : pcase) : verdict :=
   if negb (Nat.eqb (List.length (pc_descs k)) (List.length (xc_txs (pc_frame k)))) then V_domain 0
+  else if negb (p_master_b k) then V_propfalse 600
   else if negb (p_verified_b k) then V_propfalse 500
   else judge_frame (frame_of k).
 
@@ -298,4 +323,5 @@ Definition judge_verify (k : N * pdesc * N) : verdict :=
     | _, _ => false
     end in
   if (obs =? 0) && remote && negb enough then V_propfalse 1
+  else if (obs =? 0) && negb remote && negb (master_accepts st ib (pd_proof d)) then V_propfalse 2
   else if vres_code v =? obs then V_ok else V_mismatch 0.
